@@ -18,7 +18,7 @@ Ltac rsimp :=
        set_nbits_offset set_scale_offset set_nbits_new_refval set_new_refvals set_assoc
        set_nbits_skipped set_bsr set_new_nbytes set_dnp set_qa set_bitmap_set set_bitmapped
        set_bm_state set_reuse set_n031031 set_next_bm set_boundary set_backrefs
-       upd_r set_r w_r w_c ck_code ck_ndef io_dd io_links io_c keys dirty dirty_of fresh].
+       upd_r set_r w_r w_c ck_code ck_ndef ck_c33 cemit_st io_dd io_links io_c keys dirty dirty_of fresh].
 Ltac rsimp_in H :=
   cbn [r_nbits_offset r_scale_offset r_nbits_new_refval r_new_refvals r_assoc r_nbits_skipped r_bsr
        r_new_nbytes r_dnp r_qa r_bitmap_set r_bitmapped r_bm_state r_reuse r_n031031 r_next_bm
@@ -26,7 +26,7 @@ Ltac rsimp_in H :=
        set_nbits_offset set_scale_offset set_nbits_new_refval set_new_refvals set_assoc
        set_nbits_skipped set_bsr set_new_nbytes set_dnp set_qa set_bitmap_set set_bitmapped
        set_bm_state set_reuse set_n031031 set_next_bm set_boundary set_backrefs
-       upd_r set_r w_r w_c ck_code ck_ndef io_dd io_links io_c keys dirty dirty_of fresh] in H.
+       upd_r set_r w_r w_c ck_code ck_ndef ck_c33 cemit_st io_dd io_links io_c keys dirty dirty_of fresh] in H.
 
 Definition BmInv (rC : regs) : Prop :=
   r_bm_state rC = BITMAP_NA \/ r_bm_state rC = BITMAP_INDICATOR \/
@@ -62,14 +62,59 @@ Record InvR (rC : regs) (nd : nat) (rI rE : regs) : Prop := mkInvR {
   dy_count : r_bm_state rC = BITMAP_BIT_COUNTING -> r_n031031 rE = r_n031031 rI
 }.
 
+(* ---- no class 33 element among the possible back references ------------------ *)
+Definition no33_ref (b : backref) : Prop := (desc_X (e_id (snd b)) =? 33)%N = false.
+Definition no33_opt (o : option (list backref)) : Prop :=
+  match o with Some l => Forall no33_ref l | None => True end.
+Definition no33_dd (d : ddesc) : Prop := dd_c33 d = false.
+
+Lemma In_firstn {A} (x : A) n l : In x (firstn n l) -> In x l.
+Proof.
+  revert l. induction n as [|n IH]; intros [|y l] Hx; cbn in *; try contradiction.
+  destruct Hx as [->|Hx]; [left; reflexivity|right; apply IH; exact Hx].
+Qed.
+
+Lemma In_elems_indexed i e k l : In (i, e) (elems_indexed k l) -> In (DDElem e) l.
+Proof.
+  revert k. induction l as [|d l IH]; intros k Hx; cbn in *; [contradiction|].
+  destruct d; try (right; eapply IH; exact Hx).
+  cbn in Hx. destruct Hx as [Hx|Hx]; [left; congruence|right; eapply IH; exact Hx].
+Qed.
+
+Lemma In_collect_backrefs i e b n dd : In (i, e) (collect_backrefs b n dd) -> In (DDElem e) dd.
+Proof.
+  unfold collect_backrefs. intros Hx. apply in_rev in Hx.
+  assert (Hy : In (i, e) (rev (elems_indexed 0 (firstn (N.to_nat b) dd)))).
+  { destruct n; [exact Hx|]. eapply In_firstn; exact Hx. }
+  apply in_rev in Hy. apply In_elems_indexed in Hy. eapply In_firstn; exact Hy.
+Qed.
+
+Lemma In_select_zero x bm refs : In x (select_zero bm refs) -> In x refs.
+Proof.
+  revert refs. induction bm as [|b bm IH]; intros [|y refs] Hx; cbn in *; try contradiction.
+  destruct b; [destruct Hx as [->|Hx]; [left; reflexivity|right; apply IH; exact Hx]|right; apply IH; exact Hx].
+Qed.
+
 Section Inv.
 Context {C : Type} (P : prims C).
 Notation st := (ws (io C)).
 Notation H := (io_handlers P).
 Notation exec := (exec_stmts P true).
 
+Definition NoC33 (s : st) : Prop :=
+  Forall no33_dd (io_dd (w_c s)) /\ no33_opt (r_backrefs (w_r s)) /\
+  no33_opt (r_bitmapped (w_r s)) /\ no33_opt (r_next_bm (w_r s)).
+
 Definition Inv (sC : ws cks) (sI sE : st) : Prop :=
-  w_c sI = w_c sE /\ InvR (w_r sC) (ck_ndef (w_c sC)) (w_r sI) (w_r sE).
+  w_c sI = w_c sE /\ InvR (w_r sC) (ck_ndef (w_c sC)) (w_r sI) (w_r sE) /\
+  (ck_c33 (w_c sC) = false -> NoC33 sI).
+
+Lemma NoC33_upd (f : regs -> regs) (s : st) :
+  r_backrefs (f (w_r s)) = r_backrefs (w_r s) -> r_bitmapped (f (w_r s)) = r_bitmapped (w_r s) ->
+  r_next_bm (f (w_r s)) = r_next_bm (w_r s) -> NoC33 s -> NoC33 (upd_r f s).
+Proof.
+  intros E1 E2 E3 (Hd & H1 & H2 & H3). unfold NoC33. cbn [upd_r w_r w_c]. rewrite E1, E2, E3. auto.
+Qed.
 
 (* what a compile step [resC] from [sC] promises about the interpreted step [fI] *)
 Definition simc_at (sC : ws cks) (resC : result (ws cks)) (fI : st -> result st) : Prop :=
@@ -110,24 +155,30 @@ Proof.
   intros sI sE HI. rewrite (Hx _ _ HI). apply A. exact HI.
 Qed.
 
-(* a register update performed by the walker itself, on both sides *)
+(* a register update performed by the walker itself, on both sides; it never
+   touches the back reference bookkeeping *)
+Definition keeps_refs (f : regs -> regs) : Prop :=
+  forall r, r_backrefs (f r) = r_backrefs r /\ r_bitmapped (f r) = r_bitmapped r /\ r_next_bm (f r) = r_next_bm r.
+
 Lemma simc_at_upd (f : regs -> regs) sC :
+  keeps_refs f ->
   (StatInv (w_r sC) (ck_ndef (w_c sC)) ->
    StatInv (f (w_r sC)) (ck_ndef (w_c sC)) /\
    forall rI rE, InvR (w_r sC) (ck_ndef (w_c sC)) rI rE -> InvR (f (w_r sC)) (ck_ndef (w_c sC)) (f rI) rE) ->
   simc_at sC (Ok (upd_r f sC)) (fun s => Ok (upd_r f s)).
 Proof.
-  intros HSf sC' E HS. injection E as <-. exists SNil. destruct (HSf HS) as [HS' HIf].
+  intros Hk HSf sC' E HS. injection E as <-. exists SNil. destruct (HSf HS) as [HS' HIf].
   split; [symmetry; apply stmts_app_nil_r|]. split; [exact HS'|].
-  intros sI sE [Hc HR]. cbn [agree exec_stmts]. split; [exact Hc|]. apply HIf. exact HR.
+  intros sI sE (Hc & HR & HN). cbn [agree exec_stmts]. split; [exact Hc|]. split; [apply HIf; exact HR|].
+  intros X. destruct (Hk (w_r sI)) as (K1 & K2 & K3). apply NoC33_upd; auto.
 Qed.
 
 (* a recorded run-time handler call: the same function on both run-time states *)
-Definition dyn_ok (sC : ws cks) (g : st -> result st) : Prop :=
-  forall sI sE, Inv sC sI sE -> agree (Inv sC) (g sI) (g sE).
+Definition dyn_ok (sC sC' : ws cks) (g : st -> result st) : Prop :=
+  forall sI sE, Inv sC sI sE -> agree (Inv sC') (g sI) (g sE).
 
 Lemma simc_at_emit sC x g :
-  (forall s, exec_stmt P true x s = g s) -> dyn_ok sC g -> simc_at sC (cemit x sC) g.
+  (forall s, exec_stmt P true x s = g s) -> dyn_ok sC (cemit_st x sC) g -> simc_at sC (cemit x sC) g.
 Proof.
   intros Hx Hg sC' E HS. unfold cemit in E. injection E as <-. exists (SCons x SNil).
   split; [reflexivity|]. split; [exact HS|].
@@ -135,11 +186,14 @@ Proof.
 Qed.
 
 (* ---- the handlers that only touch the client state -------------------------- *)
-Lemma lift_agree dd f sC : dyn_ok sC (lift dd f).
+Lemma lift_agree x dd f sC : stmt_c33 x = dd_c33 dd -> dyn_ok sC (cemit_st x sC) (lift dd f).
 Proof.
-  intros sI sE [Hc HR]. unfold lift, push_dd, with_c. rewrite Hc. rsimp.
+  intros Hx sI sE (Hc & HR & HN). unfold lift, push_dd, with_c. rewrite Hc. rsimp.
   destruct (f (io_c (w_c sE))) as [c|e]; cbn [bind agree]; [|reflexivity].
-  split; [reflexivity|exact HR].
+  split; [reflexivity|]. split; [exact HR|]. rsimp. rewrite Hx. intros X.
+  destruct (dd_c33 dd) eqn:Ed; [discriminate|]. destruct (HN X) as (Hd & H1 & H2 & H3).
+  unfold NoC33. rsimp. rewrite <- Hc. split; [|auto].
+  apply Forall_app. split; [exact Hd|]. constructor; [exact Ed|constructor].
 Qed.
 
 Lemma lookup_keys id (l1 l2 : list (N * option Z)) :
@@ -151,68 +205,92 @@ Qed.
 
 Lemma numeric_nr_agree dd a b c sC :
   refval_lookup (dd_id dd) (r_new_refvals (w_r sC)) <> None ->
-  dyn_ok sC (h_numeric_new_refval H dd a b c).
+  dyn_ok sC (cemit_st (SNumericNR dd a b c) sC) (h_numeric_new_refval H dd a b c).
 Proof.
-  intros Hk sI sE HI. pose proof HI as [Hc HR]. cbn [io_handlers h_numeric_new_refval].
+  intros Hk sI sE HI. pose proof HI as (Hc & HR & HN). cbn [io_handlers h_numeric_new_refval].
   assert (Hn : refval_lookup (dd_id dd) (r_new_refvals (w_r sI)) <> None).
   { intros E. apply Hk. eapply lookup_keys; [exact (sa_keys _ _ _ _ HR)|exact E]. }
   rewrite (dy_lookup _ _ _ _ HR _ Hn).
   destruct (refval_lookup (dd_id dd) (r_new_refvals (w_r sI))) as [[v|]|]; cbn [agree]; try reflexivity.
-  apply lift_agree. exact HI.
+  apply (lift_agree (SNumericNR dd a b c)); [reflexivity|exact HI].
 Qed.
 
-Lemma mark_agree sC : dyn_ok sC (h_mark_boundary H).
+(* handlers that push no descriptor: the class 33 flag of the compiler is unchanged *)
+Lemma mark_agree sC : dyn_ok sC (cemit_st SMark sC) (h_mark_boundary H).
 Proof.
-  intros sI sE [Hc HR]. cbn [io_handlers h_mark_boundary agree]. unfold ndesc. rewrite Hc.
-  split; [exact Hc|]. rsimp. destruct HR. constructor; rsimp; auto.
+  intros sI sE (Hc & HR & HN). cbn [io_handlers h_mark_boundary agree]. unfold ndesc. rewrite Hc.
+  split; [exact Hc|]. split; [rsimp; destruct HR; constructor; rsimp; auto|].
+  rsimp. intros X. apply NoC33_upd; try reflexivity. apply HN. exact X.
 Qed.
 
-Lemma recall_agree sC : dyn_ok sC (h_recall_bitmap H).
+Lemma recall_agree sC : dyn_ok sC (cemit_st SRecall sC) (h_recall_bitmap H).
 Proof.
-  intros sI sE [Hc HR]. cbn [io_handlers h_recall_bitmap]. rewrite (dy_bitmapped _ _ _ _ HR).
-  destruct (r_bitmapped (w_r sI)); cbn [agree]; [|reflexivity].
-  split; [exact Hc|]. rsimp. destruct HR. constructor; rsimp; auto.
+  intros sI sE (Hc & HR & HN). cbn [io_handlers h_recall_bitmap]. rewrite (dy_bitmapped _ _ _ _ HR).
+  destruct (r_bitmapped (w_r sI)) as [l|] eqn:Eb; cbn [agree]; [|reflexivity].
+  split; [exact Hc|]. split; [rsimp; destruct HR; constructor; rsimp; auto|].
+  rsimp. intros X. destruct (HN X) as (Hd & H1 & H2 & H3). unfold NoC33. rsimp.
+  rewrite Eb in *. auto.
 Qed.
 
-Lemma cancel_agree sC : dyn_ok sC (h_cancel_bitmap H).
+Lemma cancel_agree sC : dyn_ok sC (cemit_st SCancelBitmap sC) (h_cancel_bitmap H).
 Proof.
-  intros sI sE [Hc HR]. cbn [io_handlers h_cancel_bitmap agree].
-  split; [exact Hc|]. rsimp. destruct HR. constructor; rsimp; auto.
+  intros sI sE (Hc & HR & HN). cbn [io_handlers h_cancel_bitmap agree].
+  split; [exact Hc|]. split; [rsimp; destruct HR; constructor; rsimp; auto|].
+  rsimp. intros X. apply NoC33_upd; try reflexivity. apply HN. exact X.
 Qed.
 
-Lemma cancel_br_agree sC : dyn_ok sC (h_cancel_backrefs H).
+Lemma cancel_br_agree sC : dyn_ok sC (cemit_st SCancelBackrefs sC) (h_cancel_backrefs H).
 Proof.
-  intros sI sE [Hc HR]. cbn [io_handlers h_cancel_backrefs agree].
-  split; [exact Hc|]. rsimp. destruct HR. constructor; rsimp; auto.
+  intros sI sE (Hc & HR & HN). cbn [io_handlers h_cancel_backrefs agree].
+  split; [exact Hc|]. split; [rsimp; destruct HR; constructor; rsimp; auto|].
+  rsimp. intros X. destruct (HN X) as (Hd & H1 & H2 & H3). unfold NoC33. rsimp. cbn [no33_opt]. auto.
 Qed.
 
-Lemma add_link_agree sC : dyn_ok sC (h_add_bitmap_link H).
+Lemma add_link_agree sC : dyn_ok sC (cemit_st SAddLink sC) (h_add_bitmap_link H).
 Proof.
-  intros sI sE [Hc HR]. cbn [io_handlers h_add_bitmap_link]. unfold next_bitmapped.
+  intros sI sE (Hc & HR & HN). cbn [io_handlers h_add_bitmap_link]. unfold next_bitmapped.
   rewrite (dy_next_bm _ _ _ _ HR).
-  destruct (r_next_bm (w_r sI)) as [[|b rest]|]; cbn [bind agree]; try reflexivity.
+  destruct (r_next_bm (w_r sI)) as [[|b rest]|] eqn:En; cbn [bind agree]; try reflexivity.
   unfold io_add_link, ndesc. rsimp. rewrite Hc. split; [reflexivity|].
-  destruct HR. constructor; rsimp; auto.
+  split; [destruct HR; constructor; rsimp; auto|].
+  intros X. destruct (HN X) as (Hd & H1 & H2 & H3). unfold NoC33. rsimp. rewrite <- Hc.
+  rewrite En in H3. cbn [no33_opt] in *. inversion H3; subst. auto.
 Qed.
 
-Lemma build_bitmapped_agree bm sC : dyn_ok sC (build_bitmapped bm).
+Lemma build_bitmapped_agree bm sC : dyn_ok sC sC (build_bitmapped bm).
 Proof.
-  intros sI sE [Hc HR]. unfold build_bitmapped, get_backrefs.
+  intros sI sE (Hc & HR & HN). unfold build_bitmapped, get_backrefs.
   rewrite (dy_backrefs _ _ _ _ HR), (dy_boundary _ _ _ _ HR), Hc.
-  match goal with |- agree _ (bind ?r _) _ => destruct r as [refs|e] end; cbn [bind agree]; [|reflexivity].
+  match goal with |- agree _ (bind ?r _) _ => destruct r as [refs|e] eqn:Er end; cbn [bind agree]; [|reflexivity].
   cbv zeta. destruct (negb (length refs =? length bm)%nat); cbn [agree]; [reflexivity|].
-  split; [exact Hc|]. rsimp. destruct HR. constructor; rsimp; auto.
+  split; [exact Hc|]. split; [rsimp; destruct HR; constructor; rsimp; auto|].
+  intros X. destruct (HN X) as (Hd & H1 & H2 & H3). unfold NoC33. rsimp.
+  assert (Hrefs : Forall no33_ref refs).
+  { destruct (r_backrefs (w_r sI)) as [[|b0 l0]|] eqn:Eb.
+    - destruct (N.of_nat (length (io_dd (w_c sE))) <? r_boundary (w_r sI))%N; [discriminate|].
+      injection Er as <-. apply Forall_forall. intros [i e] Hx. apply In_collect_backrefs in Hx.
+      rewrite <- Hc in Hx. rewrite Forall_forall in Hd. exact (Hd _ Hx).
+    - injection Er as <-. exact H1.
+    - destruct (N.of_nat (length (io_dd (w_c sE))) <? r_boundary (w_r sI))%N; [discriminate|].
+      injection Er as <-. apply Forall_forall. intros [i e] Hx. apply In_collect_backrefs in Hx.
+      rewrite <- Hc in Hx. rewrite Forall_forall in Hd. exact (Hd _ Hx). }
+  assert (Hsel : Forall no33_ref (select_zero bm refs)).
+  { apply Forall_forall. intros x Hx. apply In_select_zero in Hx. rewrite Forall_forall in Hrefs. auto. }
+  cbn [no33_opt]. auto.
 Qed.
 
 Lemma define_bitmap_agree reuse sC :
-  r_bm_state (w_r sC) = BITMAP_BIT_COUNTING -> dyn_ok sC (h_define_bitmap H reuse).
+  r_bm_state (w_r sC) = BITMAP_BIT_COUNTING ->
+  dyn_ok sC (cemit_st (SDefineBitmap reuse) sC) (h_define_bitmap H reuse).
 Proof.
-  intros Hbm sI sE [Hc HR]. cbn [io_handlers h_define_bitmap].
+  intros Hbm sI sE (Hc & HR & HN). cbn [io_handlers h_define_bitmap].
   rewrite (dy_count _ _ _ _ HR Hbm), Hc.
   destruct (p_bitmap P (r_n031031 (w_r sI)) (io_c (w_c sE))) as [bm|e]; cbn [bind agree]; [|reflexivity].
   destruct reuse.
-  - apply build_bitmapped_agree. split; [exact Hc|]. rsimp. destruct HR. constructor; rsimp; auto.
-  - apply build_bitmapped_agree. split; [exact Hc|exact HR].
+  - apply (build_bitmapped_agree bm sC). split; [exact Hc|].
+    split; [rsimp; destruct HR; constructor; rsimp; auto|].
+    intros X. apply NoC33_upd; try reflexivity. apply HN. exact X.
+  - apply (build_bitmapped_agree bm sC). split; [exact Hc|]. split; [exact HR|exact HN].
 Qed.
 
 Lemma new_refval_simc nzf dd a sC :
@@ -221,15 +299,19 @@ Proof.
   intros sC' E HS. cbn [chk_handlers h_new_refval] in E. injection E as <-.
   exists (SCons (SNewRefval dd a) SNil). split; [reflexivity|].
   split; [destruct HS as [HB HL]; split; [exact HB|rsimp; unfold refval_set; cbn [length]; lia]|].
-  intros sI sE [Hc HR]. rewrite exec_stmts_one. cbn [exec_stmt].
+  intros sI sE (Hc & HR & HN). rewrite exec_stmts_one. cbn [exec_stmt].
   cbn [io_handlers h_new_refval]. unfold push_dd, with_c. rsimp. rewrite Hc.
   destruct (p_new_refval P a (io_c (w_c sE))) as [[v c]|e]; cbn [bind agree]; [|reflexivity].
-  split; [reflexivity|]. rsimp. destruct HR. constructor; rsimp; auto.
-  - unfold refval_set. cbn [map fst]. congruence.
-  - intros id. unfold refval_set. cbn [refval_lookup].
-    destruct (dd_id dd =? id)%N; [reflexivity|]. apply dy_lookup0.
-  - unfold refval_set, dirty_of. cbn [length Nat.eqb]. intros Hd.
-    rewrite dy_clean0; [reflexivity|exact Hd].
+  split; [reflexivity|]. split.
+  - rsimp. destruct HR. constructor; rsimp; auto.
+    + unfold refval_set. cbn [map fst]. congruence.
+    + intros id. unfold refval_set. cbn [refval_lookup].
+      destruct (dd_id dd =? id)%N; [reflexivity|]. apply dy_lookup0.
+    + unfold refval_set, dirty_of. cbn [length Nat.eqb]. intros Hd.
+      rewrite dy_clean0; [reflexivity|exact Hd].
+  - rsimp. intros X. destruct (dd_c33 dd) eqn:Ed; [discriminate|].
+    destruct (HN X) as (Hd & H1 & H2 & H3). unfold NoC33. rsimp. rewrite <- Hc. split; [|auto].
+    apply Forall_app. split; [exact Hd|]. constructor; [exact Ed|constructor].
 Qed.
 
 End Inv.
